@@ -57,7 +57,8 @@ Concat(s) == LET RECURSIVE Go(_) Go(i) == IF i > Len(s) THEN << >> ELSE s[i] \o 
 IsConstE(e) == e.t = "Const"
 ConstIs(e, n) == e.t = "Const" /\ e.v.k \in NumKinds /\ e.v.n = n * e.v.d
 \* get_neg_product: Product whose first child is the number -1
-HasNegProd(ch) == ch.t = "Product" /\ Len(ch.c) > 0 /\ ConstIs(ch.c[1], -1)
+\* (more than one factor: a lone -1 is not a minus sign - repaired in 3b11606)
+HasNegProd(ch) == ch.t = "Product" /\ Len(ch.c) > 1 /\ ConstIs(ch.c[1], -1)
 NegProd(ch) == IF Len(ch.c) = 2 THEN ch.c[2] ELSE N("Product", Tail(ch.c))
 \* expr.base * expr.base through the overloaded operator
 MulSelf(b) == IF b.t = "Const" THEN K(NumMul(b.v, b.v))
